@@ -212,7 +212,11 @@ def run_container(ctx, case, data, tmp, container, spelling, max_read, rng):
         gen = auditok.split(reader, **kw)
     elif container == "stdin_pipe":
         old = sys.stdin
-        ps = PipeStdin(data, rng)
+        if (case["pcm_seed"] >> 36) & 1:
+            ps = PipeStdin(data, rng, header=b"#pcm stream follows\n")
+            ps.consume_header()  # the application read a header line through the buffered layer before calling split("-")
+        else:
+            ps = PipeStdin(data, rng)
         sys.stdin = ps
 
         def cleanup():
